@@ -436,6 +436,10 @@ func (n *cnNet) buildTx(spec *cnTxSpec, rng *rand.Rand) ([]byte, error) {
 			return nil, err
 		}
 		tx = registry.NewRegisterEntityTx(spec.Nonce, fee, se)
+	case "freshness":
+		var blob [32]byte
+		blob[0], blob[31] = byte(spec.Amount), byte(spec.Nonce)
+		tx = registry.NewProveFreshnessTx(spec.Nonce, fee, blob)
 	case "deregentity":
 		tx = registry.NewDeregisterEntityTx(spec.Nonce, fee)
 	case "unfreeze":
